@@ -27,7 +27,7 @@ Ev == Trace[l]
 -----------------------------------------------------------------------------
 (* observation -> ChfSeq state *)
 ObsRec(r) == [ref |-> r.ref, lrsn |-> r.lrsn, chid |-> r.chid, consumer |-> r.consumer,
-              subscriber |-> r.subscriber, cause |-> r.cause, rsn |-> r.rsn, conts |-> r.conts, pad |-> r.pad]
+              subscriber |-> r.subscriber, cause |-> r.cause, rsn |-> r.rsn, conts |-> r.conts, pad |-> r.pad, plmn |-> r.plmn]
 ObsUe(x) == [rg |-> [g \in DOMAIN x.rg |-> [rtype |-> x.rg[g].rtype, reserved |-> x.rg[g].reserved,
                                             ucost |-> x.rg[g].ucost, reqnum |-> x.rg[g].reqnum]],
              notify |-> x.notify,
@@ -164,7 +164,7 @@ StepCreate ==
          resp == RespObs
          a    == [u |-> Ev.args.u, supi |-> meta.supis[Ev.args.u], sub |-> meta.subs[Ev.args.u], c |-> Ev.args.c,
                   onetime |-> Ev.args.onetime, usage |-> ConvUsage(Ev.args.usage), chid |-> Ev.args.chid,
-                  pad |-> Ev.args.pad, notify |-> Ev.args.notify]
+                  pad |-> Ev.args.pad, notify |-> Ev.args.notify, plmn |-> Ev.args.plmn]
          exp  == Create(pre, a)
          h2   == HCreate(h, a, resp)
          ok   == resp.status = 201
